@@ -10,6 +10,8 @@ import (
 	"path/filepath"
 	"sort"
 	"strings"
+	"sync"
+	"sync/atomic"
 	"time"
 
 	"github.com/btcsuite/btcd/btcec/v2"
@@ -50,10 +52,10 @@ type mop struct {
 }
 
 var (
-	mgrParams   = &chaincfg.MainNetParams
-	mgrSeed     = bytes.Repeat([]byte{0x10, 0xc1, 0x0f, 0xa7}, 8)
-	mgrNS       = []byte("waddrmgr")
-	mgrBirthday = time.Unix(1600000000, 0)
+	mgrParams    = &chaincfg.MainNetParams
+	mgrSeed      = bytes.Repeat([]byte{0x10, 0xc1, 0x0f, 0xa7}, 8)
+	mgrNS        = []byte("waddrmgr")
+	mgrBirthday  = time.Unix(1600000000, 0)
 	customSchema = waddrmgr.ScopeAddrSchema{ExternalAddrType: waddrmgr.WitnessPubKey, InternalAddrType: waddrmgr.WitnessPubKey}
 )
 
@@ -433,8 +435,7 @@ func (e *mgrEnv) open(pub, priv int) error {
 }
 
 func openMgrCopy(dir, snapshot string, pub, priv int) (*mgrEnv, error) {
-	copySeq++
-	e := &mgrEnv{path: filepath.Join(dir, fmt.Sprintf("copy%d.db", copySeq))}
+	e := &mgrEnv{path: filepath.Join(dir, fmt.Sprintf("copy%d.db", atomic.AddInt64(&copySeq, 1)))}
 	if err := copyFile(snapshot, e.path); err != nil {
 		return nil, err
 	}
@@ -454,11 +455,14 @@ func openMgrCopy(dir, snapshot string, pub, priv int) (*mgrEnv, error) {
 // resolver turns paths into real addresses (derived by an instance that is
 // not the one under test).
 type resolver struct {
+	mu    sync.Mutex
 	env   *mgrEnv
 	cache map[path4]btcutil.Address
 }
 
 func (r *resolver) addr(p path4) (btcutil.Address, error) {
+	r.mu.Lock()
+	defer r.mu.Unlock()
 	if a, ok := r.cache[p]; ok {
 		return a, nil
 	}
@@ -620,7 +624,8 @@ func (e *mgrEnv) runTx(ops []mop, res *resolver) (string, error, int, int) {
 // ---------------------------------------------------------------- observation
 
 type watch struct {
-	scopes []int
+	fetch  []int // scopes whose presence is asked
+	scopes []int // existing scopes asked in full
 	accts  map[int][]int64
 	names  []int
 	addrs  []watched
@@ -651,13 +656,18 @@ func observeMgr(e *mgrEnv, w *watch) items {
 		}
 		sort.Strings(ids)
 		it["scopes"] = strings.Join(ids, ",")
+		for _, sc := range w.fetch {
+			if _, err := m.FetchScopedKeyManager(scopeOf(sc)); err != nil {
+				it[fmt.Sprintf("scopes:fetch/%d", sc)] = errClass(err)
+			} else {
+				it[fmt.Sprintf("scopes:fetch/%d", sc)] = "ok"
+			}
+		}
 		for _, sc := range w.scopes {
 			sm, err := m.FetchScopedKeyManager(scopeOf(sc))
 			if err != nil {
-				it[fmt.Sprintf("scopes:fetch/%d", sc)] = errClass(err)
 				continue
 			}
-			it[fmt.Sprintf("scopes:fetch/%d", sc)] = "ok"
 			if la, err := sm.LastAccount(ns); err != nil {
 				it[fmt.Sprintf("last_account:%d", sc)] = errClass(err)
 			} else {
@@ -698,6 +708,11 @@ func observeMgr(e *mgrEnv, w *watch) items {
 				continue
 			}
 			it["address_lookup:"+wa.label] = fmt.Sprintf("found acct=%d internal=%v imported=%v", ma.InternalAccount(), ma.Internal(), ma.Imported())
+			if _, acct, err := m.AddrAccount(ns, wa.addr); err != nil {
+				it["address_lookup:account/"+wa.label] = errClass(err)
+			} else {
+				it["address_lookup:account/"+wa.label] = fmt.Sprint(acct)
+			}
 			it["used_flag:"+wa.label] = fmt.Sprint(ma.Used(ns))
 		}
 		// the private passphrase the running manager accepts
@@ -725,17 +740,23 @@ func observeMgr(e *mgrEnv, w *watch) items {
 // importable keys and scripts, the account names in play.
 func buildWatch(f *gfacts, res *resolver, probes [][]mop) (*watch, error) {
 	w := &watch{accts: map[int][]int64{}}
-	for sc := 0; sc < maxScopes; sc++ {
-		inPlay := f.scopes[sc]
-		for _, ops := range probes {
-			for _, o := range ops {
-				if o.Sc == sc && o.K != "setsynced" && o.K != "setbdayblock" && o.K != "setbirthday" && o.K != "chpass" {
-					inPlay = inPlay || o.K == "newscope"
-				}
+	inPlay := map[int]bool{impScope: true}
+	for _, ops := range probes {
+		for _, o := range ops {
+			switch o.K {
+			case "setsynced", "setbdayblock", "setbirthday", "chpass":
+			default:
+				inPlay[o.Sc] = true
 			}
 		}
-		if !inPlay || (sc == 2 || sc == 3) {
-			continue // BIP49+/BIP86 are created but not driven
+	}
+	for sc := 0; sc < maxScopes; sc++ {
+		if !inPlay[sc] {
+			continue
+		}
+		w.fetch = append(w.fetch, sc)
+		if !f.scopes[sc] {
+			continue // a scope some probe creates: only its presence is asked
 		}
 		w.scopes = append(w.scopes, sc)
 		as := append([]int64{}, f.accts[sc]...)
@@ -807,7 +828,7 @@ func buildWatch(f *gfacts, res *resolver, probes [][]mop) (*watch, error) {
 
 func runMgrCase(in input) (*caseOut, error) {
 	co := &caseOut{In: in}
-	dir, err := os.MkdirTemp("", "vh-c10-mgr-")
+	dir, err := tempDir("vh-c10-mgr-")
 	if err != nil {
 		return nil, err
 	}
@@ -937,6 +958,9 @@ func runMgrCase(in input) (*caseOut, error) {
 				}
 				after := observeMgr(ke, w)
 				for _, it := range pre.diff(after) {
+					if _, ok := pre[it]; !ok && category(it) == "used_flag" {
+						continue // a flag of an address that was not known before: reported as address_lookup
+					}
 					ko.Kinds = appendUniq(ko.Kinds, "memory_not_restored:"+category(it)+"@"+site)
 					ko.Detail = append(ko.Detail, fmt.Sprintf("differs after rollback: %s: %q -> %q", it, pre[it], after[it]))
 				}
@@ -1177,7 +1201,7 @@ func genMgrProbes(r *gen.R, f *gfacts, hashSeq, passSeq, nameSeq *int) [][]mop {
 	nx := f.next[[3]int64{int64(sc), acct, br}]
 	tail := func() mop { return mop{K: "setbdayblock", H: f.synced, Hash: hash(), Ver: true} }
 
-	newacct := mop{K: "newacct", Sc: r.Intn(2), Name: name()}
+	newacct := mop{K: "newacct", Sc: sc % 2, Name: name()}
 	out = append(out, []mop{newacct})
 	// an account name that is taken: refused before any write
 	out = append(out, []mop{{K: "newacct", Sc: sc, Name: 2}})
